@@ -15,16 +15,18 @@ import (
 	"time"
 
 	"github.com/DrmagicE/gmqtt/config"
+	"github.com/DrmagicE/gmqtt/server"
 )
 
 var probes = map[string]func() (string, *failure){
-	"flood-after-disconnect": probeFloodAfterDisconnect,
-	"stop-during-connect":    probeStopDuringConnect,
-	"stop-vs-late-connect":   probeStopVsLateConnect,
-	"once-deadlock":          probeOnceDeadlock,
-	"same-id-storm":          probeSameIDStorm,
-	"slow-subscriber":        probeSlowSubscriber,
-	"overlap-lock-cycle":     probeOverlapLockCycle,
+	"flood-after-disconnect":  probeFloodAfterDisconnect,
+	"stop-during-connect":     probeStopDuringConnect,
+	"stop-vs-late-connect":    probeStopVsLateConnect,
+	"stop-vs-inflight-accept": probeStopVsInflightAccept,
+	"once-deadlock":           probeOnceDeadlock,
+	"same-id-storm":           probeSameIDStorm,
+	"slow-subscriber":         probeSlowSubscriber,
+	"overlap-lock-cycle":      probeOverlapLockCycle,
 }
 
 func probeNames() []string {
@@ -96,7 +98,7 @@ func probeFloodAfterDisconnect() (string, *failure) {
 	return finish(b, bound, "flood-after-disconnect")
 }
 
-// Model/StopLife.v kf_unregistered_survives: a connection that has not completed CONNECT when
+// Repaired finding (1d02d65; was kf_unregistered_survives): a connection that has not completed CONNECT when
 // Stop takes its snapshot of srv.clients is neither closed nor waited for.
 func probeStopDuringConnect() (string, *failure) {
 	bound := *flagWatchdog
@@ -178,24 +180,86 @@ func probeStopVsLateConnect() (string, *failure) {
 	if f != nil {
 		return "", f
 	}
-	if lateErr != nil || late == nil {
-		return "", failf("panic", "the late client could not connect while the listener was being closed: %v (harness problem: the accept loop was already gone?)", lateErr)
-	}
 	if !early.waitDead(1 * time.Second) {
 		return "", failf("stop", "a client registered before Stop is still connected 1s after Stop returned nil")
 	}
-	if !late.waitDead(1 * time.Second) {
-		answers := ""
-		if _, err := late.request(pingreqPacket(), tPINGRESP, 0, 1*time.Second); err == nil {
-			answers = " and still answers PINGREQ"
+	// Since 1d02d65 a CONNECT that reaches registration after Stop has begun is refused (CONNACK with a
+	// non-zero code) or the connection is closed: both are correct.  What must not happen: the late
+	// client is online after Stop, or its connection is left open.
+	outcome := "refused-or-closed"
+	if lateErr != nil && isWatchdog(lateErr) {
+		return "", failf("watchdog", "a client that connected while the listener was being closed got neither CONNACK nor a close within %s", bound)
+	}
+	if late != nil {
+		outcome = "accepted-then-closed"
+		if !late.waitDead(1 * time.Second) {
+			answers := ""
+			if _, err := late.request(pingreqPacket(), tPINGRESP, 0, 1*time.Second); err == nil {
+				answers = " and still answers PINGREQ"
+			}
+			return "", failf("leak", "Stop returned nil after %s but a client that completed CONNECT/CONNACK while the listener was being closed is still connected%s: srv.clients was listed before the listeners were closed; broker goroutines: %s",
+				el.Round(time.Millisecond), answers, goroutineHistogram())
 		}
-		return "", failf("leak", "Stop returned nil after %s but a client that completed CONNECT/CONNACK while the listener was being closed is still connected%s: srv.clients was listed before the listeners were closed; broker goroutines: %s",
-			el.Round(time.Millisecond), answers, goroutineHistogram())
+	}
+	if b.srv.ClientService().GetClient("late") != nil {
+		return "", failf("leak", "client `late` is registered after Stop returned")
 	}
 	if f := leakCheck(2 * time.Second); f != nil {
 		return "", f
 	}
-	return fmt.Sprintf("stop_ms=%.1f", float64(el)/1e6), nil
+	return fmt.Sprintf("late_client=%s stop_ms=%.1f", outcome, float64(el)/1e6), nil
+}
+
+// A connection that Accept has returned but that newClient has not yet put into srv.connecting
+// when Stop lists the connections (here: a slow OnAccept hook) is in neither map.
+func probeStopVsInflightAccept() (string, *failure) {
+	bound := *flagWatchdog
+	b, f := startBroker(nil)
+	if f != nil {
+		return "", f
+	}
+	atomic.StoreInt32(&b.plg.acceptGate, 1)
+	raw, err := net.DialTimeout("tcp", b.addr, bound)
+	if err != nil {
+		return "", failf("panic", "dial: %v", err)
+	}
+	defer raw.Close()
+	select {
+	case <-b.plg.acceptSeen:
+	case <-time.After(bound):
+		return "", failf("watchdog", "the OnAccept hook was not called within %s", bound)
+	}
+	// the connection is accepted, the OnAccept hook is running; Stop runs to completion meanwhile
+	el, f := b.stopBroker(1, bound)
+	close(b.plg.acceptRelease)
+	if f != nil {
+		return "", f
+	}
+	// Since 9fa9d46 addConnecting closes a connection that is recorded after exit(): correct = the broker
+	// closes the socket once the hook has returned, nothing is registered, and the goroutines of that
+	// connection end on their own (Stop does not wait for them: they get a moment here).
+	_ = raw.SetReadDeadline(time.Now().Add(2 * time.Second))
+	one := make([]byte, 1)
+	_, rerr := raw.Read(one)
+	if rerr == nil || isTimeout(rerr) {
+		return "", failf("leak", "Stop returned nil after %s while the OnAccept hook of an accepted connection was still running; 2s after the hook returned the connection is still open (not closed by the broker); broker goroutines: %s",
+			el.Round(time.Millisecond), goroutineHistogram())
+	}
+	registered := 0
+	b.srv.ClientService().IterateClient(func(server.Client) bool { registered++; return true })
+	if registered != 0 {
+		return "", failf("leak", "%d client(s) registered after Stop returned", registered)
+	}
+	if f := leakCheck(3 * time.Second); f != nil {
+		gs := brokerGoroutines()
+		all := ""
+		for _, g := range gs {
+			all += " || " + summarizeStack(g)
+		}
+		f.detail = "in-flight accept: " + f.detail + "; all:" + all
+		return "", f
+	}
+	return fmt.Sprintf("inflight_connection=closed-by-broker stop_ms=%.1f", float64(el)/1e6), nil
 }
 
 func isTimeout(err error) bool {
